@@ -4,6 +4,7 @@ import re
 
 STR = re.compile(r'"(?:[^"\\\n]|\\.)*"')
 CHR = re.compile(r"'(?:[^'\\\n]|\\.)'")
+NUM = re.compile(r"(?<![\w.])(\d+(?:\.\d+)?(?:[eE][-+]?\d+)?)[fFlLdD]?(?![\w])")
 
 
 def blank_literals(text):
@@ -34,6 +35,13 @@ def patterns(lang, kind, name):
         return r"\bdef\s+%s\s*=\s*\{" % n
     if kind == "closure_typed" and lang == "groovy":
         return r"\bClosure<[^\n]*>\s+%s\s*=\s*\{" % n
+    if kind == "call_targs":
+        if lang == "kotlin":
+            return r"(?<![\w])%s<" % n
+        if lang == "scala":
+            return r"`%s`\[" % n
+    if kind == "param":
+        return r"(?<![\w`])%s(?![\w`])" % n
     if kind == "new_inferred":
         if lang == "kotlin":
             return r"(?<![\w.])%s\s*\(" % n
@@ -59,6 +67,10 @@ def count(lang, text, kind, name):
                 if depth[close[ch]] < 0:
                     return 0
         return 1 if all(v == 0 for v in depth.values()) else 0
+    if kind == "lit":
+        return sum(1 for m in NUM.finditer(bl) if m.group(1) == name)
+    if kind == "op":
+        return bl.count(name)
     pat = patterns(lang, kind, name)
     if pat is None:
         return 999999
